@@ -19,8 +19,9 @@ only which recursions are bounded by the code's OWN counters and which by a fuel
 
 * SYNC engine (`syncStart`, `syncSend`, `drainLoop`, `transientLoop`, `execActionsF`): every
   recursion is structural on a counter the Python code itself maintains — `iterations` of
-  `_process_transient_transitions` and `processed` of `_process_event_queue` (both initialised from
-  `machine.max_iterations`), `_action_depth` of `_execute_actions` (`MAX_ACTION_DEPTH`). Nothing is
+  `_process_transient_transitions` (bounded by `machine.max_iterations`) and `processed` of
+  `_process_event_queue` (bounded by `budget = machine.max_iterations + len(queue)`, computed once when the
+  drain starts: `drainBudget`), `_action_depth` of `_execute_actions` (`MAX_ACTION_DEPTH`). Nothing is
   assumed and no model fuel exists: termination of `start()` / `send()` holds by construction. §1 and
   §2 say what the counters bound, that they do not disturb chains shorter than the bound, and what a
   cut does.
@@ -64,10 +65,18 @@ Vocabulary (from `Xsm/Proofs/Termination.lean`):
    every digested command leaves it at 0 (`async_run_quiet`), and a run of the loop in which the machine
    sends itself at most `maxIterations` events is never cut (`short_chain_not_cut_async`). The former
    counterexample `leaked_counter_cuts_short_chain` is replaced by `failed_chains_do_not_leak` (same witness).
-**Deviation that remains** (the model agrees with the Python code; finding F10):
-3. sync: the cut of `_process_event_queue` clears the whole queue, external events of the same burst
-   included, and counts plain external events too (`send_events` with more events than the bound
-   loses the excess): `drainLoop_exhausted_clears_queue`, `sync_burst_throttled`.
+**The last sentence of the property, sync engine** (repaired in the library: F10; the model follows):
+3. the budget of one `_process_event_queue()` is `maxIterations` PLUS the number of events queued when the
+   drain starts (`drainBudget`), so events accepted from outside — a `send_events` burst of any length,
+   events left over by a call that raised, what `start()` queued — never count towards the ceiling and,
+   the queue being FIFO, are all dequeued before anything enqueued during the drain:
+   `external_events_never_discarded_sync` (every event queued at the start is received, in order, unless the
+   machine stops running or a macrostep raises — then the rest stays queued; a cut happens only after all
+   of them plus `maxIterations` more were received) and `short_chain_not_cut_sync` (a drain whose
+   macrosteps enqueue at most `maxIterations` events is never cut; `sync_cut_needs_long_chain`: a cut
+   needs MORE than `maxIterations` of them). The former counterexample `sync_burst_throttled` is replaced by
+   `sync_burst_not_throttled` (same witness). The cut still clears the whole queue
+   (`drainLoop_exhausted_clears_queue`) — which then holds only events enqueued during the drain.
 The "error log" of a cut is outside the model (no record is emitted for it).
 -/
 namespace XSM.C13
@@ -128,14 +137,22 @@ example : (syncStart settleM u0 {}).cfg = [[], ["b"]] := by decide
 
 /-- *Clause "an action raising its own trigger … cut after the machine's maxIterations bound" (sync).*
     `drainLoop … n` processes at most `n` queued events (`drainSteps`: same recursion, counting);
-    `syncSend` / `syncStart` call it with `n = m.maxIterations`. -/
+    `syncSend` / `syncStart` call it with `n = drainBudget m s = m.maxIterations + s.queue.length`, `s` the
+    state when the drain starts (the event just sent already appended). -/
 theorem drainLoop_bound (m : Machine) (u : UEnv) (n : Nat) (s : St) : drainSteps m u n s ≤ n :=
   drainSteps_le m u n s
 
-/-- one `send` on the sync engine processes at most `maxIterations` events -/
-theorem syncSend_bound (m : Machine) (u : UEnv) (e : Ev) (s : St) :
-    drainSteps m u m.maxIterations { s with queue := s.queue ++ [⟨e, false⟩] } ≤ m.maxIterations :=
-  drainSteps_le m u _ _
+/-- one `send` on the sync engine processes at most `maxIterations` events MORE than were queued when its
+    drain started (the event itself included among the latter), and it IS one such drain -/
+theorem syncSend_bound (m : Machine) (u : UEnv) (e : Ev) (s : St) (hr : s.status = "running") :
+    syncSend m u e s =
+      drainLoop m u (m.maxIterations + (s.queue.length + 1)) { s with queue := s.queue ++ [⟨e, false⟩] } ∧
+    drainSteps m u (m.maxIterations + (s.queue.length + 1)) { s with queue := s.queue ++ [⟨e, false⟩] }
+      ≤ m.maxIterations + (s.queue.length + 1) := by
+  refine ⟨?_, drainSteps_le m u _ _⟩
+  unfold syncSend sndUnflagged drainFlagged drainBudget
+  rw [if_pos hr]
+  simp
 
 /-- *Fuel monotonicity for the queue drain:* if with budget `k` the drain is not cut (it ended with an
     empty queue, a machine that is not running, or an error) every budget `≥ k` gives the same result. -/
@@ -152,9 +169,9 @@ theorem drainLoop_not_cut_of_steps_lt (m : Machine) (u : UEnv) (n : Nat) (s : St
     (hlt : drainSteps m u n s < n) : drainCut m u n s = false := drainCut_false_of_steps_lt m u n s hlt
 
 /-- *What the cut does (sync).* With the budget exhausted the queue is emptied: whatever is pending
-    is discarded. NOTE: this includes externally sent events queued in the same burst — a known
-    deviation from the last sentence of the property (see `sync_burst_throttled` below); the model
-    follows the code (`self._event_queue.clear()`). -/
+    is discarded (`self._event_queue.clear()`). With the budget the code computes (`drainBudget`) nothing
+    that was queued when the drain started can be pending then: see `external_events_never_discarded_sync`
+    (§4) — what is discarded was enqueued while draining. -/
 theorem drainLoop_exhausted_clears_queue (m : Machine) (u : UEnv) (s : St) : (drainLoop m u 0 s).queue = [] := by
   rw [Term.drainLoop_zero]
 
@@ -167,17 +184,19 @@ theorem cut_keeps_running (m : Machine) (u : UEnv) (s : St) :
       (drainLoop m u 0 s).err = s.err ∧ (drainLoop m u 0 s).ctx = s.ctx := by
   rw [Term.drainLoop_zero]; exact ⟨rfl, rfl, rfl, rfl, rfl⟩
 
-/-- `fanM` (`E` raises `E` twice, bound 3), sync: `send(E)` processes exactly 3 events and is cut;
-    it returns running, with an empty queue, no error; the next event is answered -/
-example : (drainSteps fanM u0 3 { running with queue := [⟨.user "E", false⟩] },
-    drainCut fanM u0 3 { running with queue := [⟨.user "E", false⟩] }) = (3, true) := by decide
+/-- `fanM` (`E` raises `E` twice, bound 3), sync: `send(E)` (budget 3 + 1: the `E` sent does not count)
+    processes exactly 4 events and is cut; it returns running, with an empty queue, no error; the next event
+    is answered -/
+example : (drainBudget fanM { running with queue := [⟨.user "E", false⟩] },
+    drainSteps fanM u0 4 { running with queue := [⟨.user "E", false⟩] },
+    drainCut fanM u0 4 { running with queue := [⟨.user "E", false⟩] }) = (4, 4, true) := by decide
 example : let s := syncSend fanM u0 (.user "E") running
-    (s.status, s.cfg, evTypes s, s.err.isSome, count "sawE@E" s) = ("running", [[], ["a"]], [], false, 3) := by
+    (s.status, s.cfg, evTypes s, s.err.isSome, count "sawE@E" s) = ("running", [[], ["a"]], [], false, 4) := by
   decide
 example : count "sawX@X" (syncSend fanM u0 (.user "X") (syncSend fanM u0 (.user "E") running)) = 1 := by decide
 /-- `shortM` (`E` raises `R` once): two events, not cut; the chain ran to its natural end -/
-example : (drainSteps shortM u0 3 { running with queue := [⟨.user "E", false⟩] },
-    drainCut shortM u0 3 { running with queue := [⟨.user "E", false⟩] }) = (2, false) := by decide
+example : (drainSteps shortM u0 4 { running with queue := [⟨.user "E", false⟩] },
+    drainCut shortM u0 4 { running with queue := [⟨.user "E", false⟩] }) = (2, false) := by decide
 example : count "sawR@R" (syncSend shortM u0 (.user "E") running) = 1 := by decide
 
 /-! ## 2. nested action expansion (`choose` …) is bounded by the code's depth counter -/
@@ -349,11 +368,11 @@ example : let s : St := { running with queue := [⟨.user "E", true⟩, ⟨.user
      potential 3 (asyncStep fanM u0 ⟨.user "E", true⟩ { s with queue := [⟨.user "E", true⟩] })) = (true, 6, 5) := by
   decide
 /-- `reDoneM` (*"an onDone that re-completes its own state"*), bound 3: `start()` returns on both
-    engines, running, in a legal configuration; the `onDone` transition ran 3 times (sync: cut by the
-    drain budget) resp. 4 times (async: one done event queued by `start()` itself, uncounted, then the
-    breaker) -/
+    engines, running, in a legal configuration; the `onDone` transition ran 4 times on both: one done event
+    queued by `start()` itself, uncounted (sync: the drain budget is 3 + 1; async: `start()` runs outside the
+    run loop), then 3 more before the cut (sync: the drain budget; async: the breaker) -/
 example : let s := syncStart reDoneM u0 {}
-    (s.status, s.cfg, evTypes s, count "again@done.state.m.p" s) = ("running", [[], ["p"], ["p", "f"]], [], 3) := by
+    (s.status, s.cfg, evTypes s, count "again@done.state.m.p" s) = ("running", [[], ["p"], ["p", "f"]], [], 4) := by
   decide +kernel
 example : let s := asyncStart reDoneM u0 {}
     (s.status, s.cfg, evTypes s, s.raiseDepth, count "again@done.state.m.p" s) =
@@ -525,13 +544,100 @@ theorem failed_chains_do_not_leak :
     asyncTrips errChainM u0 (asyncFuel errChainM) { s3 with err := none, queue := [⟨.user "E", false⟩] } = 0 := by
   decide
 
-/-- **Deviation 3 (model = code), sync; finding F10, open.** The counter of `_process_event_queue` counts every dequeued
-    event, external ones too: five plain external events queued by one call (`send_events`) with
-    bound 3 — no chain at all — lose the last two. -/
-theorem sync_burst_throttled :
+/-! ### the sync engine: events queued when a drain starts are never throttled or discarded (F10, repaired) -/
+
+/-- the budget of one `_process_event_queue()`: `limit + len(self._event_queue)`, computed when the drain
+    starts; `syncSend` / `send_events` / `syncStart` all drain through `drainFlagged` -/
+theorem sync_drain_budget (m : Machine) (u : UEnv) (s : St) :
+    drainFlagged m u s = drainLoop m u (m.maxIterations + s.queue.length) s := rfl
+
+/-- **events queued when a sync drain starts are never discarded by the bound** (the sync counterpart of
+    `external_events_never_discarded_async`; the former counterexample `sync_burst_throttled` no longer holds).
+    For every machine, user code and state, the drain the code runs (`drainFlagged`: budget `maxIterations`
+    + queue length) receives (`drainLog`: dequeues and hands to `_process_event`) first of all the events
+    that were queued at its start, in queue order, none skipped, none twice; ALL of them — and nothing is
+    left queued — when it returns with the interpreter "running" and without raising; if it raises (the
+    sync engine aborts the drain on a failing macrostep) the ones not yet received are still queued, in
+    order, at the head; and the breaker (`drainCut`: budget exhausted with events pending) fires only after
+    all of them and `maxIterations` further events have been received. The only other way a queued event is
+    not received: the machine completed or was stopped (status gate, C10). -/
+theorem external_events_never_discarded_sync (m : Machine) (u : UEnv) (s : St) :
+    (drainLog m u (drainBudget m s) s).take s.queue.length =
+      (s.queue.map (·.ev)).take (drainLog m u (drainBudget m s) s).length ∧
+    ((drainFlagged m u s).err = none → (drainFlagged m u s).status = "running" →
+      (drainLog m u (drainBudget m s) s).take s.queue.length = s.queue.map (·.ev) ∧ (drainFlagged m u s).queue = []) ∧
+    (s.status = "running" → (drainFlagged m u s).err ≠ none →
+      s.queue.drop (drainLog m u (drainBudget m s) s).length <+: (drainFlagged m u s).queue) ∧
+    (drainCut m u (drainBudget m s) s = true →
+      (drainLog m u (drainBudget m s) s).length = m.maxIterations + s.queue.length ∧
+      (drainLog m u (drainBudget m s) s).take s.queue.length = s.queue.map (·.ev)) := by
+  have hB : s.queue.length ≤ drainBudget m s := by unfold drainBudget; omega
+  obtain ⟨h1, h2, h3⟩ := drain_initial m u s.queue (drainBudget m s) s [] (by simp) hB
+  have hall : s.queue.length ≤ (drainLog m u (drainBudget m s) s).length →
+      (drainLog m u (drainBudget m s) s).take s.queue.length = s.queue.map (·.ev) := by
+    intro h
+    rw [h1, List.take_of_length_le]
+    rw [List.length_map]; exact h
+  refine ⟨h1, fun he hr => ⟨hall (h2 he hr), drainLoop_queue_nil m u _ _ he⟩, h3, fun hc => ?_⟩
+  have hl := drainCut_steps m u _ s hc
+  exact ⟨hl, hall (by rw [hl]; exact hB)⟩
+
+/-- **a drain in which at most `maxIterations` events are enqueued while draining is never cut** (the sync
+    counterpart of `short_chain_not_cut_async`, and of the monitor `oracles.c13_short_chain_not_cut`).
+    `drainRaised`: the events the macrosteps of this drain append to the queue — every `raise`, every
+    `done.state.*`, every `send` to itself, over all events processed. However many events were queued when
+    the drain started. -/
+theorem short_chain_not_cut_sync (m : Machine) (u : UEnv) (s : St)
+    (h : (drainRaised m u (drainBudget m s) s).length ≤ m.maxIterations) :
+    drainCut m u (drainBudget m s) s = false :=
+  drainCut_false_of_raised m u _ s (by have : drainBudget m s = m.maxIterations + s.queue.length := rfl; omega)
+
+/-- … the exact threshold: the breaker fires only in a drain whose macrosteps enqueued MORE than
+    `maxIterations` events -/
+theorem sync_cut_needs_long_chain (m : Machine) (u : UEnv) (s : St)
+    (hc : drainCut m u (drainBudget m s) s = true) :
+    m.maxIterations < (drainRaised m u (drainBudget m s) s).length := by
+  by_cases h : m.maxIterations < (drainRaised m u (drainBudget m s) s).length
+  · exact h
+  · rw [short_chain_not_cut_sync m u s (by omega)] at hc; exact absurd hc (by simp)
+
+/-- … for one `send` (the event appended, then the drain), and a not-cut drain is unaffected by the bound:
+    any larger budget gives the same result -/
+theorem short_chain_not_cut_send_sync (m : Machine) (u : UEnv) (e : Ev) (s : St)
+    (h : (drainRaised m u (drainBudget m { s with queue := s.queue ++ [⟨e, false⟩] })
+      { s with queue := s.queue ++ [⟨e, false⟩] }).length ≤ m.maxIterations) :
+    drainCut m u (drainBudget m { s with queue := s.queue ++ [⟨e, false⟩] })
+      { s with queue := s.queue ++ [⟨e, false⟩] } = false ∧
+    ∀ n, drainBudget m { s with queue := s.queue ++ [⟨e, false⟩] } ≤ n →
+      drainLoop m u n { s with queue := s.queue ++ [⟨e, false⟩] } =
+        drainFlagged m u { s with queue := s.queue ++ [⟨e, false⟩] } := by
+  have hc := short_chain_not_cut_sync m u { s with queue := s.queue ++ [⟨e, false⟩] } h
+  exact ⟨hc, fun n hn => Term.drainLoop_fuel_mono m u _ _ hc n hn⟩
+
+/-- **The former Deviation 3 (F10), repaired outcome.** Five plain external events queued by one call
+    (`send_events`) with bound 3 — no chain at all: all five are processed (before the repair: 3, the last
+    two were discarded); the budget of the drain is 3 + 5, nothing is cut. -/
+theorem sync_burst_not_throttled :
     let x : QEv := ⟨.user "X", false⟩
-    count "sawX@X" (drainLoop fanM u0 fanM.maxIterations { running with queue := [x, x, x, x, x] }) = 3 := by
+    count "sawX@X" (drainFlagged fanM u0 { running with queue := [x, x, x, x, x] }) = 5 ∧
+    drainBudget fanM { running with queue := [x, x, x, x, x] } = 8 ∧
+    drainCut fanM u0 (drainBudget fanM { running with queue := [x, x, x, x, x] })
+      { running with queue := [x, x, x, x, x] } = false := by
   decide
+/-- … and a burst mixed with a runaway chain: `X E X`, `fanM` (`E` raises `E` twice, bound 3): budget 3 + 3;
+    `X E X` are received first, then three of the raised `E`s, then the cut — which discards raised `E`s only -/
+example : let x : QEv := ⟨.user "X", false⟩
+    let e : QEv := ⟨.user "E", false⟩
+    (drainLog fanM u0 (drainBudget fanM { running with queue := [x, e, x] }) { running with queue := [x, e, x] },
+     drainCut fanM u0 (drainBudget fanM { running with queue := [x, e, x] }) { running with queue := [x, e, x] },
+     count "sawX@X" (drainFlagged fanM u0 { running with queue := [x, e, x] })) =
+    ([.user "X", .user "E", .user "X", .user "E", .user "E", .user "E"], true, 2) := by decide
+/-- `shortM` (`E` raises `R` once, bound 3): one event enqueued while draining, not cut; `fanM`: the hypothesis
+    of `short_chain_not_cut_sync` fails (8 > 3 events enqueued while draining) and the drain is cut -/
+example : ((drainRaised shortM u0 4 { running with queue := [⟨.user "E", false⟩] }).length,
+    drainCut shortM u0 4 { running with queue := [⟨.user "E", false⟩] }) = (1, false) := by decide
+example : ((drainRaised fanM u0 4 { running with queue := [⟨.user "E", false⟩] }).length,
+    drainCut fanM u0 4 { running with queue := [⟨.user "E", false⟩] }) = (8, true) := by decide
 
 /-! ## 5. … "leaving a legal configuration" -/
 
